@@ -25,7 +25,6 @@ use crate::codec::SketchSlice;
 use crate::codec::family::Family;
 use crate::error::Error;
 use crate::hll::HllType;
-use crate::hll::KEY_BITS_26;
 use crate::hll::container::COUPON_EMPTY;
 use crate::hll::container::Container;
 use crate::hll::serialization::COMPACT_FLAG_MASK;
@@ -37,6 +36,9 @@ use crate::hll::serialization::SERIAL_VERSION;
 use crate::hll::serialization::encode_mode_byte;
 
 /// List for sequential coupon storage with duplicate detection
+/// The list array has 2^3 slots (its initial and only size).
+const LG_LIST_SIZE: usize = 3;
+
 #[derive(Debug, Clone, PartialEq)]
 pub struct List {
     container: Container,
@@ -85,7 +87,10 @@ impl List {
     ) -> Result<Self, Error> {
         // The in-memory list always has its full 2^lg_arr slots; a compact image stores only
         // the first coupon_count of them.
-        if lg_arr > KEY_BITS_26 as usize || coupon_count > (1 << lg_arr) {
+        // A list holds at most 8 coupons (it is promoted when full): its array has 2^3 slots in
+        // every writer; early versions left the size byte at 0.
+        let lg_arr = lg_arr.max(LG_LIST_SIZE);
+        if lg_arr > LG_LIST_SIZE || coupon_count > (1 << lg_arr) {
             return Err(Error::deserial(format!(
                 "invalid list: lg_arr {lg_arr}, coupon count {coupon_count}"
             )));
